@@ -1,20 +1,16 @@
-"""The simulator's logical clock: one step = one ``line`` trace event inside
-library code (files under <repo>/jsonpath_rfc9535).  A per-run cap aborts the
-run by raising a private BaseException from the tracer -- no wall clock involved,
-so "hang" verdicts are deterministic and replayable.
+"""The simulator's logical clock: one step = one ``line`` event inside library
+code (files under <repo>/jsonpath_rfc9535), delivered by ``sys.monitoring``
+(dst.monitor).  A per-run cap aborts the run by raising a private BaseException
+from the callback -- no wall clock involved, so "hang" verdicts are deterministic
+and replayable.
 """
 
 from __future__ import annotations
 
-import os
-import sys
 from typing import Any
-from typing import Callable
-from typing import Optional
 
-import jsonpath_rfc9535
-
-LIB_DIR = os.path.dirname(os.path.abspath(jsonpath_rfc9535.__file__)) + os.sep
+from . import monitor
+from .monitor import LIB_DIR  # noqa: F401  (re-exported)
 
 
 class StepBudgetExceeded(BaseException):
@@ -27,24 +23,15 @@ class StepClock:
     def __init__(self, cap: int) -> None:
         self.cap = cap
         self.steps = 0
-        self._prev: Optional[Callable[..., Any]] = None
 
-    def _local(self, frame: Any, event: str, arg: Any) -> Any:
-        if event == "line":
-            self.steps += 1
-            if self.steps > self.cap:
-                raise StepBudgetExceeded(self.steps)
-        return self._local
-
-    def _global(self, frame: Any, event: str, arg: Any) -> Any:
-        if frame.f_code.co_filename.startswith(LIB_DIR):
-            return self._local
-        return None
+    def _on_line(self, code: Any, line: int) -> Any:
+        self.steps += 1
+        if self.steps > self.cap:
+            raise StepBudgetExceeded(self.steps)
 
     def __enter__(self) -> "StepClock":
-        self._prev = sys.gettrace()
-        sys.settrace(self._global)
+        monitor.switch_on(self._on_line, None)
         return self
 
     def __exit__(self, *exc: Any) -> None:
-        sys.settrace(self._prev)
+        monitor.switch_off()
